@@ -23,6 +23,7 @@ type RangeLoop struct {
 	next *RangeLoop
 	c    uint
 	w    io.Writer
+	err  error
 }
 
 // NewRangeLoop makes new RL.
@@ -65,7 +66,9 @@ func (rl *RangeLoop) Iterate() inspector.LoopCtl {
 	}
 
 	if rl.cntr > 0 && len(rl.node.loopSep) > 0 {
-		_, _ = rl.w.Write(rl.node.loopSep)
+		if _, rl.err = rl.w.Write(rl.node.loopSep); rl.err != nil {
+			return inspector.LoopCtlBrk
+		}
 	}
 	rl.cntr++
 	var err, lerr error
@@ -88,6 +91,10 @@ func (rl *RangeLoop) Iterate() inspector.LoopCtl {
 		if err == ErrContLoop {
 			return inspector.LoopCtlCnt
 		}
+		if err != nil && err != ErrLBreakLoop {
+			rl.err = err
+			return inspector.LoopCtlBrk
+		}
 	}
 	if err == ErrBreakLoop || lerr == ErrLBreakLoop {
 		if rl.ctx.brkD > 0 {
@@ -108,6 +115,7 @@ func (rl *RangeLoop) Reset() {
 		crl.tpl = nil
 		crl.c = 0
 		crl.w = nil
+		crl.err = nil
 		crl = crl.next
 	}
 }
